@@ -279,6 +279,53 @@ def handle (sess : Sess) (rep : Report) (ln : Nat) (toks : List String) (obs : S
         let mine := "ok ; " ++ digest s'
         if mine == obs then ({ sess with model := some s', mon := mon }, rep)
         else ({ sess with model := none, mon := mon }, { rep.msg s!"DIVERGE line={ln} model={mine} impl={obs}" with diverged := rep.diverged + 1 })
+  | "scanpark" :: rest =>
+    -- a plain pick stopped in the middle of its least-loaded scan while other calls complete: the outcome must be
+    -- that of the pick followed by the completions, or of the completions followed by the pick (C02)
+    if !sess.active then (sess, rep.bump "pool.skipped_after_divergence") else
+    if obs == "bad-op" then (sess, rep) else
+    let a := args rest
+    match (arg a "call").toNat?, (arg a "picker").toNat? with
+    | some call, some pn =>
+      let ids := ((arg a "dones").splitOn "+").filterMap String.toNat?
+      let pickOp : Op := .pick call pn "plain" .gcp none (.msg { key := "", keys := [] })
+      let doneOps : List Op := ids.map fun i => .done i .other { key := "", keys := [] }
+      let parts := obs.splitOn " ; "
+      let how := ((parts.find? (·.startsWith "dones=")).map fun e => (e.drop 6).toString).getD "?"
+      let rep := rep.bump s!"pool.completions_during_scan_{how}"
+      let explain (ops : List Op) : Option (St × String) :=
+        sess.model.map fun s =>
+          let (s', evs) := ops.foldl (fun (acc : St × List String) op =>
+            let (s1, e1) := step acc.1 op
+            (s1, acc.2 ++ (e1.map evStr).filter (· != "ok"))) (s, [])
+          (s', " ; ".intercalate (evs ++ [s!"dones={how}", digest s']))
+      let pickFirst := explain (pickOp :: doneOps)
+      let donesFirst := explain (doneOps ++ [pickOp])
+      -- monitors: in the order that explains the outcome; if none does, completions first (they were started while the
+      -- pick had not chosen yet)
+      -- (only the last operation of the sequence is judged against the printed state; there is none for the ones before)
+      let feedOps (mon : MonState) (rep : Report) (ops : List (Op × List String)) : MonState × Report :=
+        (ops.zipIdx).foldl (fun (acc : MonState × Report) (oei : (Op × List String) × Nat) =>
+          let oe := oei.1
+          let (mon, fails, hits) := acc.1.observe oe.1 oe.2 (if oei.2 + 1 == ops.length then parseDigest obs else none)
+          let rep := fails.foldl (fun rep (p, c) =>
+            { rep.msg s!"MONITOR property={p} clause={c} line={ln}" with monitorFails := rep.monitorFails + 1 }) acc.2
+          (mon, hits.foldl (fun rep h => rep.bump h) rep)) (mon, rep)
+      let pickEvs := parts.filter fun e => e.startsWith "placed" || e == "nosc" || e.startsWith "new sc=" || e.startsWith "connect sc="
+      let doneFeed : List (Op × List String) := doneOps.map fun o => (o, ["ok"])
+      let agrees (x : Option (St × String)) : Bool := match x with | some (_, l) => l == obs | none => false
+      if agrees pickFirst then
+        let (mon, rep) := feedOps sess.mon rep ((pickOp, pickEvs) :: doneFeed)
+        ({ sess with model := pickFirst.map (·.1), mon := mon }, rep)
+      else if agrees donesFirst then
+        let (mon, rep) := feedOps sess.mon rep (doneFeed ++ [(pickOp, pickEvs)])
+        ({ sess with model := donesFirst.map (·.1), mon := mon }, rep)
+      else
+        let (mon, rep) := feedOps sess.mon rep (doneFeed ++ [(pickOp, pickEvs)])
+        let shown := match pickFirst with | some (_, l) => l | none => "(model lost)"
+        ({ sess with model := none, mon := mon },
+         if sess.model.isSome then { rep.msg s!"DIVERGE line={ln} model={shown} impl={obs}" with diverged := rep.diverged + 1 } else rep)
+    | _, _ => (sess, rep.msg s!"BAD line={ln}")
   | "dejump" :: rest =>
     -- stand-in for d deadline-exceeded completions that were counted on the channel of that slot (the harness adds d
     -- to its counter): the model's counter and the monitor's own count advance by d
@@ -608,6 +655,16 @@ def handle (sess : Sess) (rep : Report) (ln : Nat) (toks : List String) (obs : S
     match parseOp toks obs with
     | none => (sess, rep.msg s!"BAD line={ln}")
     | some op =>
+      -- a completion needs the pick mutex (F39: the stream counters change only under it): while a pick is stopped
+      -- holding it the completion would wait; the harness does not start it then ("bad-op" = nothing was called)
+      let waits := (match op with | .done _ _ _ => true | _ => false) &&
+                   (match sess.model with | some s => !s.held.isEmpty | none => false)
+      if waits && obs == "bad-op" then (sess, rep.bump "pool.completion_would_wait_for_stopped_pick") else
+      -- likewise a round-robin BIND pick that waits for its channel needs the pick mutex when it returns: the harness
+      -- stops no pick while such a pick waits
+      let rrWaits := (match op with | .pickHold _ _ _ _ _ _ => true | _ => false) &&
+                     (match sess.model with | some s => !s.waiters.isEmpty | none => false)
+      if rrWaits && obs == "bad-op" then (sess, rep.bump "pool.no_pick_stopped_while_rr_pick_waits") else
       -- monitors and evidence counters judge what the implementation printed
       let monOp : Op := match op with
         | .pickHold call pn m ctx dl req => if (obs.splitOn " ; ").contains "held" then op else .pick call pn m ctx dl req
